@@ -127,7 +127,7 @@ def run(ctx, chk):
                 chk.ob("S-len", "SeqSlice::is_empty", nf.cmp_nf(r.ret) == cmp(L(P(1)), "Eq", c(0)), "is_empty() = %s, expected len == 0" % show(r.ret), b["span"])
         b = an.one(chk, "G01", bio, "SeqSlice::get", name="get", self_re=r"^seq::slice::SeqSlice<A>$", inherent=True)
         if b:
-            paths, N = an.analyse(cfg, b)
+            paths, N = an.analyse(cfg, b, policy=an.ForkPolicy())
             res, ag = an.strip_assert_guards(paths)
             somes = [p for p in paths if p.end == "return" and opt_kind(p.ret)[0] == "Some"]
             nones = [p for p in paths if p.end == "return" and opt_kind(p.ret)[0] == "None"]
@@ -190,7 +190,7 @@ def shadowing(chk, cfg):
         imp = b.get("impl") or {}
         if b["kind"] == "AssocFn" and not imp.get("trait") and re.match(r"^seq::slice::SeqSlice<", an._strip_lt(imp.get("self_ty") or "")):
             slice_api.add(b["path"].split("::")[-1])
-    chk.floor("SeqSlice inherent API[%s]" % cfg.name, len(slice_api), 10)
+    chk.floor("SeqSlice inherent API[%s]" % cfg.name, len(slice_api), 5)   # non-vacuity (10 counted)
     n = 0
     for b in bio.bodies:
         imp = b.get("impl") or {}
